@@ -119,3 +119,5 @@ package markers
 //@           invariant ifVal(err, pred) == ifVal(c, pred)
 //@           invariant k >= 0 && c == chainAt(err, k)
 //@           invariant forall j int :: 0 <= j && j < k ==> chainAt(err, j) != nil && !callres1(pred, chainAt(err, j))
+
+//@ type withMark invariant[C03,C12] forall i int :: 0 <= i && i < len(self.mark.types) ==> safeS(self.mark.types[i].FamilyName) && safeS(self.mark.types[i].Extension)
